@@ -309,7 +309,7 @@ package nutsdb
 //@   modifies lockMode
 
 //@ func RWManager.WriteAt (rw, b, off) (n, err)
-//@   ensures 0 <= n && n <= len(b) && (err == nil ==> n == len(b))
+//@   ensures[C19,C10] 0 <= n && n <= len(b) && (err == nil ==> n == len(b))
 //@   ensures unsynced == old(unsynced) + 1 && lastWriteOff == off
 //@   modifies unsynced, lastWriteOff
 //@ func RWManager.Sync (rw) (err)
@@ -541,3 +541,57 @@ package nutsdb
 //@   at call buildBPTreeIdx: assert[C10,C11] has(db.committedTxIds, r.H.meta.txID)
 //@   at call buildActiveBPTreeIdx: assert[C10,C11] has(db.committedTxIds, r.H.meta.txID)
 //@   at call buildOtherIdxes: assert[C10,C11,C08] has(db.committedTxIds, r.H.meta.txID)
+
+// ---------------------------------------------------------------------------
+// The two RWManager implementations against the interface contract (C19)
+//@ extern os.File.WriteAt (f, b, off) (n, err)
+//@   ensures 0 <= n && n <= len(b) && (err == nil ==> n == len(b))
+//@   ensures unsynced == old(unsynced) + 1 && lastWriteOff == off
+//@   modifies unsynced, lastWriteOff
+//@ extern os.File.Sync (f) (err)
+//@   ensures err == nil ==> unsynced == 0
+//@   ensures err != nil ==> unsynced == old(unsynced)
+//@   modifies unsynced
+//@ extern github.com/xujiajun/mmap-go.MMap.Flush (m) (err)
+//@   ensures err == nil ==> unsynced == 0
+//@   ensures err != nil ==> unsynced == old(unsynced)
+//@   modifies unsynced
+//@ extern github.com/xujiajun/mmap-go.MMap.Unmap (m) (err)
+//@   modifies nothing
+
+//@ func FileIORWManager.WriteAt
+//@   implements RWManager.WriteAt
+//@   requires fm != nil && fm.fd != nil
+//@   safety[C20] panics
+//@ func FileIORWManager.ReadAt
+//@   implements RWManager.ReadAt
+//@   requires fm != nil && fm.fd != nil
+//@   safety[C20] panics
+//@ func FileIORWManager.Sync
+//@   implements RWManager.Sync
+//@   requires fm != nil && fm.fd != nil
+//@   safety[C20] panics
+//@ func FileIORWManager.Close
+//@   implements RWManager.Close
+//@   requires fm != nil && fm.fd != nil
+//@   safety[C20] panics
+
+//@ func MMapRWManager.WriteAt
+//@   implements RWManager.WriteAt
+//@   requires mm != nil
+//@   at entry: bump unsynced
+//@   at entry: set lastWriteOff == off
+//@   modifies elems(mm.m)
+//@   safety[C20] panics
+//@ func MMapRWManager.ReadAt
+//@   implements RWManager.ReadAt
+//@   requires mm != nil
+//@   safety[C20] panics
+//@ func MMapRWManager.Sync
+//@   implements RWManager.Sync
+//@   requires mm != nil
+//@   safety[C20] panics
+//@ func MMapRWManager.Close
+//@   implements RWManager.Close
+//@   requires mm != nil
+//@   safety[C20] panics
